@@ -331,6 +331,65 @@ func libSortSlice(x *Exec, n *ast.CallExpr, recv *Val, recvExpr ast.Expr, st *St
 		}
 		x.lastPerm = [2]string{p, q}
 		x.lastLess = nil
+		// a loop-free comparator body (assignments, ifs, sends, one or more returns) is executed symbolically for an
+		// arbitrary pair (i, j) to obtain less(i, j); anything else: permutation only
+		loopFree := true
+		ast.Inspect(lit.Body, func(nd ast.Node) bool {
+			switch nd.(type) {
+			case *ast.ForStmt, *ast.RangeStmt, *ast.GoStmt, *ast.DeferStmt, *ast.SelectStmt, *ast.FuncLit, *ast.LabeledStmt:
+				loopFree = false
+			}
+			return loopFree
+		})
+		sig, _ := env.info.TypeOf(lit).(*types.Signature)
+		if !loopFree || sig == nil || sig.Params().Len() != 2 {
+			return Val{}
+		}
+		fiLit := &FuncInfo{Key: x.fi.Key + "$less", Pkg: x.fi.Pkg, Lit: lit, Body: lit.Body, Sig: sig, Type: lit.Type}
+		lessBody := func(cur *State, a, b string) (t string, ok bool) {
+			defer func() {
+				if r := recover(); r != nil {
+					if _, isU := r.(unsupportedErr); isU {
+						t, ok = "", false
+						return
+					}
+					panic(r)
+				}
+			}()
+			saved := x.c.inContract
+			x.c.inContract++
+			defer func() { x.c.inContract = saved }()
+			nObl := len(x.obligs)
+			v := x.inlineBody(fiLit, nil, []Val{{T: a, Ty: tInt}, {T: b, Ty: tInt}}, cur.clone(), n)
+			x.obligs = x.obligs[:nObl]
+			return x.defaultType(v).T, true
+		}
+		a := c.freshName("a")
+		b := c.freshName("b")
+		ra := "(- " + a + " " + off + ")"
+		rb := "(- " + b + " " + off + ")"
+		rng := fmt.Sprintf("(and (<= %s %s) (< %s %s) (< %s (+ %s %s)))", off, a, a, b, b, off, ln)
+		lba, ok1 := lessBody(st, rb, ra)
+		lab, ok2 := lessBody(st, ra, rb)
+		if !ok1 || !ok2 {
+			return Val{}
+		}
+		delete(c.trusted, "sort with a multi-statement comparator: permutation of the input only (no ordering assumed)")
+		c.assumes = append(c.assumes, fmt.Sprintf("(forall ((%s Int) (%s Int)) (=> %s (not %s)))", a, b, rng, lba))
+		if stable {
+			c.assumes = append(c.assumes, fmt.Sprintf("(forall ((%s Int) (%s Int)) (=> (and %s (not %s)) (< (%s %s) (%s %s))))", a, b, rng, lab, p, ra, p, rb))
+			c.trusted["sort.SliceStable: permutation of the input, ordered by the comparator, equal elements keep their order"] = true
+		} else {
+			c.trusted["sort.Slice: permutation of the input, ordered by the comparator (no stability)"] = true
+		}
+		c.trusted["multi-statement comparator executed symbolically (loop-free body); its own safety (index/slice bounds inside the closure) is not checked"] = true
+		x.lastLess = func(cur *State, a, b string) string {
+			t, ok := lessBody(cur, a, b)
+			if !ok {
+				panic(unsupported("sortless(): the comparator could not be evaluated"))
+			}
+			return t
+		}
 		return Val{}
 	}
 	pi := lit.Type.Params.List[0].Names
